@@ -79,6 +79,19 @@ fn payouts(c: &SimCore, out: &TxOut, denom: &str) -> Payout {
 
 impl Monitor for C09 {
     fn post(&mut self, c: &mut SimCore, step: &Step, pre: &Obs, out: &TxOut, post: &Obs) -> MResult {
+        // an emergency withdrawal by the owner never fails inside the contract (arithmetic, own queries)
+        if let Op::Fm { sender, msg: FmMsg::ManagePosition { action: PositionAction::Withdraw { identifier, emergency_unlock: Some(true) } }, .. } = &step.op {
+            if let Some(p0) = pre.position(identifier) {
+                if p0.receiver.as_str() == sender.as_str() {
+                    if let Some(e) = super::util::internal_failure(out, step, pre) {
+                        return Err(viol("C09.exit_blocked", format!("emergency withdrawal of position {} ({} {}) by its owner fails inside the contract: {e}", p0.identifier, p0.lp_asset.amount, p0.lp_asset.denom)));
+                    }
+                }
+            }
+        }
+        if c.step_no % 7 == 2 {
+            super::util::derived_exits(c, post, "C09", 6)?;
+        }
         let (sender, identifier) = match &step.op {
             Op::Fm { sender, msg: FmMsg::ManagePosition { action: PositionAction::Withdraw { identifier, emergency_unlock: Some(true) } }, .. } => {
                 (sender, identifier)
